@@ -3,7 +3,7 @@
 // the subscription closure, the `loop` closure and the sink talkback.
 // ===================================================================================================
 //@op from_iter
-//@properties C01 C02 C03 C13 C14 C15 C17 C20
+//@properties C01 C02 C03 C13 C14 C15 C17 C20 C06
 //@ignore ctor = Tok_from_iter {}
 //@heap Heap<T>
 //@tp T
